@@ -1,6 +1,7 @@
 //! C10 extras: Graphemes inputs, IterInput (an `Input` that is not a `ValueInput`), and
 //! E2 — the explicit-state exploration of the input-cursor machine (module `cursor`).
 
+pub mod collects;
 pub mod cursor;
 pub mod seqs;
 
@@ -289,6 +290,7 @@ pub fn run(unit: &str, tier: Tier, cx: &ShardCtx) -> UnitResult {
         "iterinput" => run_iter(unit, if q { 4 } else { 5 }, 4, cx, None),
         "cursor-machine" => cursor::run(unit, if q { 4 } else { 5 }, cx),
         "primitive-seq-flavours" | "primitive-seq-flavours+unbounded" => seqs::run(unit, !q, cx),
+        "collect-container-flavours" => collects::run_unit(unit, if q { 5 } else { 6 }, cx),
         "pull-budgets" => pulls::run(unit, if q { &[0, 1, 2, 8, 16, 32, 64, 128] } else { &[0, 1, 2, 8, 16, 32, 64, 128, 256, 512, 1024, 2048] }, cx),
         _ => panic!("unknown unit {unit}"),
     }
@@ -309,6 +311,11 @@ pub fn replay(v: &Value) -> Result<Option<String>, String> {
             let tier = if v["tier"].as_str() == Some("thorough") { Tier::Thorough } else { Tier::Quick };
             let r = run("pull-budgets", tier, &cx);
             Ok(r.mismatches.iter().find(|m| m["case"] == v["case"] && m["input"] == v["input"]).map(|m| format!("{} at {}: {}", m["case"].as_str().unwrap_or(""), m["input"].as_str().unwrap_or(""), m["detail"].as_str().unwrap_or(""))))
+        }
+        "collects" => {
+            let tier = if v["tier"].as_str() == Some("thorough") { Tier::Thorough } else { Tier::Quick };
+            let r = run("collect-container-flavours", tier, &cx);
+            Ok(r.mismatches.iter().find(|m| m["case"] == v["case"] && m["input"] == v["input"]).or(r.mismatches.first()).map(|m| format!("{} on {:?}: {}", m["case"].as_str().unwrap_or(""), m["input"].as_str().unwrap_or(""), m["detail"].as_str().unwrap_or(""))))
         }
         "seqs" => {
             // small unit: re-run it (its four working shards) and look the case up
